@@ -46,8 +46,23 @@
 (*           hence lo = floor(sum lo / 4), hi = ceiling(sum hi / 4).          *)
 (* Domain (DomainOK): no negative integers (Int: any value >= 0, all-zero     *)
 (* tiles and low counts included - integer data has no undefined value);      *)
-(* Colour: non-zero channel values are >= 4^Depth (so a defined pixel's alpha *)
-(* never averages down to 0 = undefined), alpha 0 means all channels zero.    *)
+(* Colour: channel values 0..255, alpha 0 means all channels zero.  FAINT     *)
+(* alpha (a defined pixel whose alpha averages down to less than 1) is in the *)
+(* domain: such an output pixel is undefined under truncation and defined     *)
+(* under rounding up, its alpha interval is <<0, 1>> (TileMerge: MaybeUPx,    *)
+(* PlacePx); a tile ALL of whose pixels are like that may be entirely         *)
+(* undefined - the machine keeps it as a tile whose intervals admit "all      *)
+(* zero", the emitted record flags it (may), and the harness accepts its file *)
+(* being absent, or present with a defined pixel, never present and entirely  *)
+(* undefined.  Float: a tile whose every block is undefined or holds both     *)
+(* infinities reduces to an entirely undefined tile and does not exist,       *)
+(* although its children hold defined pixels (the reduction itself made them  *)
+(* undefined); the leaves beneath it are then cut off from its ancestors      *)
+(* (Connected fails): C02's sentences hold as they stand, C14's range rule    *)
+(* and ExistsIffDataBelow are stated for connected pyramids.                  *)
+(* The result is a function of the case alone: neither the worker count nor   *)
+(* the way workers are started (fork / spawn / forkserver: par_util           *)
+(* resolve_parallelism, ParDecision.tla) is a parameter of Final(c).          *)
 (* Leaf values are integers; the harness maps them to concrete pixel values.  *)
 EXTENDS TileMerge
 
@@ -113,7 +128,7 @@ DomainOK(c) ==
           /\ (v # <<>> /\ c.mode # "Float") => Len(v) = NCh(c.mode)
           /\ (v # <<>> /\ c.mode = "Float") => Len(v) = 1 \/ v = PosInf \/ v = NegInf
           /\ (v # <<>> /\ c.mode = "Int") => v[1] >= 0
-          /\ (v # <<>> /\ c.mode = "Colour") => \A ch \in 1..Len(v) : v[ch] = 0 \/ v[ch] >= 4 ^ Depth
+          /\ (v # <<>> /\ c.mode = "Colour") => \A ch \in 1..Len(v) : v[ch] >= 0
           /\ (v # <<>> /\ c.mode = "Colour" /\ v[4] = 0) => v = <<0, 0, 0, 0>>
           /\ (v # <<>> /\ c.mode = "Colour" /\ v[4] # 0) => \A ch \in 1..3 : v[ch] <= 255 /\ v[4] <= 255
     /\ c.stale \subseteq UpTo(Depth - 1)
@@ -126,10 +141,12 @@ vars == <<c, fin, pyr, done>>
 
 Stored(t) == FlipTile(c.bottomup, t)      \* display tile -> stored tile (and back: an involution)
 
-\* Domain: no tile above the leaves vanishes only because +inf and -inf cancel in every one of its blocks (the
-\* finite values of the leaves under such a tile would be cut off from its ancestors).  Cases outside are skipped.
+\* Connected: no tile above the leaves vanishes only because +inf and -inf cancel in every one of its blocks (the
+\* finite values of the leaves under such a tile are cut off from its ancestors).  Pyramids that are not connected
+\* are explored like any other (C02's existence rule says such a tile does not exist, and an earlier file goes);
+\* the theorems that speak about the leaves beneath a tile (RangeRule, ExistsIffDataBelow) are stated for connected ones.
 Connected(mode, f) == \A p \in UpTo(Depth - 1) : (\E k \in Kids(p) : f[k].ex /\ ~AllUndef(mode, f[k].px)) => f[p].ex
-Init == /\ \E x \in Cases : LET f == Final(x) IN Connected(x.mode, f) /\ c = x /\ fin = f
+Init == /\ \E x \in Cases : c = x /\ fin = Final(x)
         /\ pyr = InitPyr(c)
         /\ done = {}
 
@@ -184,9 +201,24 @@ ExistenceRule ==
                               [i \in 1..4 |-> Stored(pyr[Kid(p, i - 1)])])))
 \* ... and its consequence over the leaves: a tile exists iff some leaf beneath it has a defined pixel
 HasDefined(l) == l \in DOMAIN c.leaves /\ ~AllUndef(c.mode, LeafMatrix(c, l))
-ExistsIffDataBelow == LET def == {l \in DOMAIN c.leaves : HasDefined(l)}
-                      IN \A p \in done : pyr[p].ex <=> \E l \in def : InSub(l, p)
 InDomain == Connected(c.mode, fin)
+ExistsIffDataBelow == LET def == {l \in DOMAIN c.leaves : HasDefined(l)}
+                      IN InDomain => \A p \in done : pyr[p].ex <=> \E l \in def : InSub(l, p)
+\* ... and in general: a tile above the leaves exists only if a leaf beneath it has a defined pixel, and it is there
+\* whenever the reduction of its children's mosaic leaves a defined pixel - in particular it is NOT there when the
+\* reduction itself made every defined pixel undefined (VanishedHere: the children exist and hold defined pixels)
+ExistsOnlyAboveData == LET def == {l \in DOMAIN c.leaves : HasDefined(l)}
+                       IN \A p \in done : pyr[p].ex => \E l \in def : InSub(l, p)
+VanishedHere(p) == ~pyr[p].ex /\ \E k \in Kids(p) : pyr[k].ex /\ ~AllUndef(c.mode, pyr[k].px)
+VanishedOnlyByReduction ==
+    \A p \in done : VanishedHere(p) =>
+        /\ c.mode = "Float"
+        /\ AllUndef(c.mode, BlockReduce(c.mode, Mosaic(c.mode, c.bottomup, KidTiles(p))))
+        /\ ~AllUndef(c.mode, Mosaic(c.mode, c.bottomup, KidTiles(p)))
+\* a tile that MAY be entirely undefined (colour, faint alpha) has nothing surely defined in it, and neither has any
+\* tile that is surely there a possibly-undefined tile for its only content
+MayFlag(t) == t.ex /\ AllMaybeUndef(c.mode, t.px)
+MayOnlyColour == \A p \in done : MayFlag(pyr[p]) => c.mode = "Colour"
 \* a stale file at a merged position has been replaced, or removed when nothing (defined) lies beneath it
 StaleReplaced == \A p \in done \cap c.stale : pyr[p] = Stored(fin[p])
 \* stored tiles above the leaves are never entirely undefined
@@ -197,7 +229,7 @@ NeverStoredUndefined == \A p \in done : pyr[p].ex => ~AllUndef(c.mode, pyr[p].px
 \* (all its data infinite) records no range
 ValuesBelow(p) == UNION {FiniteValues(c, l) : l \in {q \in DOMAIN c.leaves : InSub(q, p)}}
 RangeOf(S) == IF S = {} THEN NoRange ELSE <<SetMin(S), SetMax(S)>>
-RangeRule == \A p \in done : (c.ranged /\ pyr[p].ex) => pyr[p].rng = RangeOf(ValuesBelow(p))
+RangeRule == InDomain => \A p \in done : (c.ranged /\ pyr[p].ex) => pyr[p].rng = RangeOf(ValuesBelow(p))
 LeafRangeRule == \A l \in Level(Depth) : (c.ranged /\ pyr[l].ex) => pyr[l].rng = RangeOf(ValuesBelow(l))
 NoRangeUnlessRanged == ~c.ranged => \A p \in UpTo(Depth) : pyr[p].rng = NoRange
 
